@@ -24,7 +24,7 @@ ASSUMPTIONS = [
     "formalism agreement of the reference itself is C04's subject (tolerance here 1e-8 relative)",
 ]
 BOUNDS = {
-    "quick": "2 masks x PSF kind alternating x 4 object lists x 2 formalism settings x 48 slot assignments; 9 events (4 read orders x fresh/reused objects + interleaved pair); histories to depth 3",
+    "quick": "2 masks x PSF kind alternating x 5 object lists x 2 formalism settings x 48 slot assignments; 9 events (4 read orders x fresh/reused objects + interleaved pair); histories to depth 3",
     "thorough": "6 masks x both PSF kinds x 8 object lists x 2 formalism settings x 48 slot assignments; histories to depth 4",
 }
 
@@ -54,12 +54,13 @@ LISTS = [
     [["del", "rectA"], [True, False]],
     [["rectB", "func", "del"], [True, False, True]],
     [["func", "rectA"], [True, True]],
+    [["funcS", "rectA", "func"], [False, True, False]],
 ]
 
 
 def cases(tier, seed):
     masks = [0b111111111, 0b101110111] if tier == "quick" else [0b111111111, 0b101110111, 0b000111010, 0b110011001, 0b010111010, 0b111101111]
-    lists = [LISTS[i] for i in (0, 1, 3, 4)] if tier == "quick" else LISTS
+    lists = [LISTS[i] for i in (0, 1, 3, 4, 8)] if tier == "quick" else LISTS
     depth = 3 if tier == "quick" else 4
     for mi, bits in enumerate(masks):
         for li, ol in enumerate(lists):
@@ -70,6 +71,14 @@ def cases(tier, seed):
                         for r in range(len(SLOTS) + 1):
                             for sub in itertools.combinations(SLOTS, r):
                                 yield [[5, 5], [3, 3], bits, kind, 1 + (bits + li) % 2, ol, wt, uw, list(sub), depth, seed]
+                    # the regularization matrix preloaded WITHOUT its log-determinant, and the per-object dictionaries the w-tilde
+                    # formalism accepts for lists that contain linear function objects
+                    extra = [["regularization_matrix_only"], ["regularization_matrix_only", "curvature_matrix"]]
+                    if wt and any(k.startswith("func") for k in ol[0]) and not all(k.startswith("func") for k in ol[0]):
+                        extra += [["mapper_operated_mapping_matrix_dict"], ["linear_func_operated_mapping_matrix_dict"], ["data_linear_func_matrix_dict"],
+                                  ["mapper_operated_mapping_matrix_dict", "linear_func_operated_mapping_matrix_dict", "data_linear_func_matrix_dict", "w_tilde"]]
+                    for sub in extra:
+                        yield [[5, 5], [3, 3], bits, kind, 1 + (bits + li) % 2, ol, wt, None, list(sub), depth, seed]
 
 
 class Graph:
@@ -123,6 +132,11 @@ class Graph:
         if "regularization_matrix" in self.slots:
             kw["regularization_matrix"] = np.array(src.regularization_matrix).copy()
             kw["log_det_regularization_matrix_term"] = float(src.log_det_regularization_matrix_term)
+        if "regularization_matrix_only" in self.slots:
+            kw["regularization_matrix"] = np.array(src.regularization_matrix).copy()
+        for dslot in ("mapper_operated_mapping_matrix_dict", "linear_func_operated_mapping_matrix_dict", "data_linear_func_matrix_dict"):
+            if dslot in self.slots:
+                kw[dslot] = {k: np.array(val).copy() for k, val in getattr(src, dslot).items()}
         if "operated_mapping_matrix" in self.slots:
             kw["operated_mapping_matrix"] = np.array(src.operated_mapping_matrix).copy()
         if "w_tilde" in self.slots:
